@@ -57,7 +57,7 @@ def fixed_cases(tier):
         out.append({"k": "mut", "file": small[(i * 7919) % len(small)], "mseed": common.stable_seed("mut", i), "style": None if i % 3 else "jcl"})
     if tier == "thorough":
         for k in range(4):
-            out.append({"k": "atheris", "seed": k, "runs": 12000})
+            out.append({"k": "atheris", "seed": k, "runs": 2500})
     return out
 
 
